@@ -5,7 +5,7 @@ def check(ctx):
     N.run_tables(ctx, 'C11', [('TokenBucket', '__init__'), ('TokenBucket', 'put'), ('TokenBucket', 'run'),
                               ('TwoRateTokenBucket', '__init__'), ('TwoRateTokenBucket', 'put'),
                               ('TwoRateTokenBucket', 'run')])
-    R.run_tables(ctx, 'C11', [('Store', '_do_put'), ('Store', '_do_get'), ('Store', '__init__')])
+    R.run_tables(ctx, 'C11', [('Store', '_do_put@unbounded'), ('Store', '_do_get')])
     elements.store_shape_agreement(ctx, 'C11', only=('TokenBucket', 'TwoRateTokenBucket'))
     elements.state_asserts(ctx, 'C11', only=('TokenBucket', 'TwoRateTokenBucket'))
     elements.spawn_sites(ctx, 'C11', only=('TokenBucket', 'TwoRateTokenBucket'))
